@@ -159,8 +159,7 @@ func parseWildcardConstraint(operator, version string) ([]*constraint, error) {
 			lowerBound := fmt.Sprintf("%d.%d.0", v.release[0], v.release[1])
 			upperBound := fmt.Sprintf("%d.%d.0", v.release[0], v.release[1]+1)
 			return []*constraint{
-				{operator: "<", version: lowerBound},
-				{operator: ">=", version: upperBound},
+				{operator: "!=*", version: lowerBound, upper: upperBound},
 			}, nil
 		}
 	}
@@ -188,6 +187,7 @@ func (pr *VersionRange) Contains(version *Version) bool {
 type constraint struct {
 	operator string
 	version  string
+	upper    string // exclusive upper bound of the excluded prefix range ("!=*" only)
 }
 
 // matches checks if the given version matches this constraint
@@ -210,6 +210,13 @@ func (c *constraint) matches(version *Version) bool {
 		return comparison == 0
 	case "!=":
 		return comparison != 0
+	case "!=*":
+		// prefix exclusion: anything outside [version, upper)
+		upperVersion, err := e.NewVersion(c.upper)
+		if err != nil {
+			return false
+		}
+		return comparison < 0 || version.Compare(upperVersion) >= 0
 	case "<":
 		return comparison < 0
 	case "<=":
